@@ -28,6 +28,11 @@ fn construct(a: &Value) -> Result<A, String> {
             let values: Vec<BaseElement> = (0..n).map(|k| BaseElement::new(100 + k as u128)).collect();
             catch(|| A::sequence(col, first, stride, values))
         },
+        // a sequence assertion with a constant value vector
+        "cseq" => {
+            let values: Vec<BaseElement> = vec![BaseElement::new(7); n];
+            catch(|| A::sequence(col, first, stride, values))
+        },
         k => Err(format!("unknown kind {k}")),
     }
 }
